@@ -91,6 +91,28 @@ let verdict_of (param : string) (arg : string) (impl : string) : string =
                    | Some n' when n' <> n -> fails := "C13:two-names-share-a-slot" :: !fails
                    | _ -> Hashtbl.replace seen slot n)
                 end) uniq;
+            (* a variable declared with the Report. prefix (or inside the Report block) is a report
+               variable, any other declared variable a control variable *)
+            (match String.split_on_char ' ' arg with
+             | srchex :: _ ->
+               (match utf8_decode (bytes_of_hex srchex) with
+                | Some cps ->
+                  (match p_defs (parse_fuel cps) cps with
+                   | POk (decls, _) ->
+                     List.iter (fun ((_, n), _) ->
+                         if List.for_all (fun c -> int_of_n c < 128) n then begin
+                           let hn = String.concat "" (List.map (fun c -> Printf.sprintf "%02x" (int_of_n c)) n) in
+                           match List.assoc_opt hn tbl with
+                           | Some r when r <> "-" && String.length r > 0 ->
+                             let want = if has_report_prefix n then 'R' else 'C' in
+                             if r.[0] <> want then
+                               fails := (if want = 'C' then "C13:declared-control-variable-is-not-in-a-control-slot"
+                                         else "C13:declared-report-variable-is-not-in-a-report-slot") :: !fails
+                           | _ -> ()
+                         end) decls
+                   | _ -> ())
+                | None -> ())
+             | _ -> ());
             let rslots = Hashtbl.fold (fun k _ acc -> if k.[0] = 'R' then int_of_string (String.sub k 1 (String.length k - 1)) :: acc else acc) seen [] in
             let nr = List.length rslots in
             if List.exists (fun i -> i >= nr) rslots && List.length ns < 140 then fails := "C13:report-slots-not-0..n-1" :: !fails
